@@ -20,15 +20,18 @@ Reasons(r) ==
             \cup (IF r.runs[k].exit = Ref.exit THEN {} ELSE {<<"exit-differs", r.runs[k].k>>}) : k \in 1..Len(r.runs) }
     \cup UNION { (IF r.snaps[k].update_exit = 0 /\ r.snaps[k].verify_exit = 0 THEN {} ELSE {<<"test-after-update-fails", k>>})
                  \cup (IF r.snaps[k].r1 = RefSnap.r1 /\ r.snaps[k].r2 = RefSnap.r2 THEN {} ELSE {<<"snapshot-bytes-differ", k>>}) : k \in 1..Len(r.snaps) }
+    \* the fixes `scan -U` writes (several rules fix the same nodes) are the same whatever the order of keys and files
+    \cup (IF r.updated = Recs[1].updated THEN {} ELSE {<<"files-after-update-differ", 0>>})
 
 ToSet(s) == { s[i] : i \in 1..Len(s) }
 Index(s, x) == CHOOSE i \in 1..Len(s) : s[i] = x
-GraphFor(r, keys) == CHOOSE g \in { r.graphs.utils, r.graphs.transform, r.graphs.globals } : DOMAIN g = keys
+Graphs(r) == { r.graphs.utils, r.graphs.utils2, r.graphs.transform, r.graphs.globals }
+GraphFor(r, keys) == CHOOSE g \in Graphs(r) : DOMAIN g = keys
 TopoOK(r, e) ==
     LET keys == ToSet(e.iter) IN
     /\ e.cyclic = ""
     /\ Len(e.order) = Len(e.iter) /\ ToSet(e.order) = keys /\ Cardinality(keys) = Len(e.iter)
-    /\ \E g \in { r.graphs.utils, r.graphs.transform, r.graphs.globals } : DOMAIN g = keys
+    /\ \E g \in Graphs(r) : DOMAIN g = keys
     /\ LET g == GraphFor(r, keys) IN
        \A a \in keys : \A j \in 1..Len(g[a]) : g[a][j] \in keys => Index(e.order, g[a][j]) < Index(e.order, a)
 Drift(r) == IF \A k \in 1..Len(r.runs) : \A j \in 1..Len(r.runs[k].topo) : TopoOK(r, r.runs[k].topo[j]) THEN {} ELSE {"toposort-model"}
